@@ -316,7 +316,7 @@ pub fn run(args: &Args) -> Report {
                 }
                 let sc = Scn { interval, timeout, rounds: hist.clone(), prompt_tail };
                 let label = format!("I={interval}ms T={}ms history={hist:?} then {}", if timeout == 0 { "NONE".to_string() } else { timeout.to_string() }, if prompt_tail { "prompt" } else { "silent" });
-                cases.push(Case { label, exec: Box::new(move |r| exec(&sc, r)) });
+                cases.push(Case { try_unbounded: false, max_k: u32::MAX, label, exec: Box::new(move |r| exec(&sc, r)) });
             }
         }
     }
